@@ -37,6 +37,15 @@ Require Import FutTransform FutTransformProofs.
 Theorem C11_rule_accepted_iff_every_placement_is_allowed : forall (A : Type) (r : frule A),
   (exists t, transform_rule A r = Some t) <-> head_allowed A (fh A r) = true /\ forallb (lit_allowed A (shape_of A (fh A r))) (fb A r) = true.
 Proof. exact rule_accepted_iff_all_placements_allowed. Qed.
+Require Import Loc LocProofs.
+(* the source location named in a diagnostic (str_location, Model/Loc.v, compared with the function of /repo on every run): the rendering is
+   file:line:column followed by the part of the end position from the first differing component on, and begin and end can be read back from it -
+   two different locations are never rendered alike *)
+Theorem C11_location_has_the_documented_shape : forall b e : pos, str_location b e = shape b e.
+Proof. exact str_location_shape. Qed.
+Theorem C11_location_is_named_faithfully : forall b e : pos, read_back (str_location b e) = Some (b, e).
+Proof. exact str_location_faithful. Qed.
+Print Assumptions C11_location_has_the_documented_shape. Print Assumptions C11_location_is_named_faithfully.
 Print Assumptions C11_rule_accepted_iff_every_placement_is_allowed.
 Print Assumptions C11_atoms. Print Assumptions C11_primes. Print Assumptions C11_rewrite.
 Print Assumptions C11_theory_context. Print Assumptions C11_literal_flags. Print Assumptions C11_initially_marker.
